@@ -18,8 +18,14 @@ def main():
     cex = json.load(open(path))
     import logging
     logging.disable(logging.CRITICAL)
-    mod = importlib.import_module('r_' + pid)
-    violated, msg = mod.replay(cex)
+    try:
+        mod = importlib.import_module('r_' + pid)
+        violated, msg = mod.replay(cex)
+    except BaseException as e:            # a replayer that cannot run decides nothing
+        import traceback
+        traceback.print_exc()
+        print('replayer error: ' + repr(e))
+        sys.exit(3)
     print(('REPRODUCED: ' if violated else 'not reproduced: ') + msg)
     sys.exit(1 if violated else 0)
 
